@@ -846,8 +846,14 @@ class _Unjellier:
         modName = nativeString(".").join(modSplit[:-1])
         if not self.taster.isModuleAllowed(modName):
             raise InsecureJelly("Module not allowed: %s" % modName)
-        # XXX do I need an isFunctionAllowed?
         function = namedAny(fname)
+        # namedAny returns any attribute of the (allowed) module: modules and
+        # names it imported from elsewhere, classes, ...  Only functions which
+        # really belong to an allowed module may pass.
+        if not isinstance(function, types.FunctionType) or not self.taster.isModuleAllowed(
+            function.__module__
+        ):
+            raise InsecureJelly("Function not allowed: %s" % fname)
         return function
 
     def _unjelly_persistent(self, rest):
